@@ -942,6 +942,22 @@ func ruleNIL3(w *World) []Ob {
 				nIter++
 				construct := "tree.walkIterProgrammably via " + describeValue(com.Value)
 				mk, ok := resolve(com.Value).(*ssa.Call)
+				// the tree comes out of a set-up helper (t, cfg, err := prepare(root, kind, options)): look inside the helper,
+				// following only the branches that the constant arguments of this call select
+				if !ok {
+					if ex, isEx := resolve(com.Value).(*ssa.Extract); isEx {
+						if hc, isC := ex.Tuple.(*ssa.Call); isC && hc.Common().StaticCallee() != nil && p.InModule(hc.Common().StaticCallee()) {
+							if why, decided := iterTreeViaHelper(p, hc, ex.Index); decided {
+								if why == "" {
+									l.ok(fid, construct, p.InstrPos(x), "the set-up helper "+fname(hc.Common().StaticCallee())+" stores cfg.massive = false before initializeTree(cfg) on the branch this call's constant arguments select", true, "iter")
+								} else {
+									l.bad(fid, construct, p.InstrPos(x), why, "iter")
+								}
+								return
+							}
+						}
+					}
+				}
 				if !ok || mk.Common().StaticCallee() == nil || fname(mk.Common().StaticCallee()) != "initializeTree" {
 					l.undecided(fid, construct, p.InstrPos(x), "the tree value does not come from initializeTree(cfg) directly", "iter")
 					return
@@ -983,6 +999,120 @@ func ruleNIL3(w *World) []Ob {
 	return l.list
 }
 
+
+// iterTreeViaHelper: hc calls a module helper whose result #idx is initializeTree(cfg).  With the constant arguments of
+// hc substituted for the helper's parameters, every route from the helper's entry to that initializeTree call passes a
+// store cfg.massive = false.  Returns (reason, decided); reason "" means the obligation holds.
+func iterTreeViaHelper(p *Prog, hc *ssa.Call, idx int) (string, bool) {
+	h := hc.Common().StaticCallee()
+	if len(h.Blocks) == 0 {
+		return "", false
+	}
+	var mk *ssa.Call
+	allInstrs(h, func(in ssa.Instruction) {
+		if r, ok := in.(*ssa.Return); ok && idx < len(rr(r)) {
+			if c, ok := stripConv(resolve(rr(r)[idx])).(*ssa.Call); ok && c.Common().StaticCallee() != nil && fname(c.Common().StaticCallee()) == "initializeTree" {
+				mk = c
+			}
+		}
+	})
+	if mk == nil {
+		return "", false
+	}
+	cfgv := mk.Common().Args[0]
+	consts := map[*ssa.Parameter]int64{}
+	for i, prm := range h.Params {
+		if i < len(hc.Common().Args) {
+			if k, ok := constInt(stripNum(hc.Common().Args[i])); ok {
+				consts[prm] = k
+			}
+		}
+	}
+	storeBlocks := map[*ssa.BasicBlock]bool{}
+	allInstrs(h, func(in ssa.Instruction) {
+		st, ok := in.(*ssa.Store)
+		if !ok {
+			return
+		}
+		fa, ok := st.Addr.(*ssa.FieldAddr)
+		if !ok {
+			return
+		}
+		tn, f, _ := fieldOf(fa)
+		same := sameVar(fa.X, cfgv)
+		if ph, isPhi := cfgv.(*ssa.Phi); isPhi && !same {
+			// cfg is assigned per branch and merged: the store goes through the value of its own branch
+			for _, e := range ph.Edges {
+				if e == fa.X || sameVar(e, fa.X) {
+					same = true
+				}
+			}
+		}
+		if tn != "config" || f != "massive" || !same {
+			return
+		}
+		if b, isC := constBool(st.Val); isC && !b {
+			storeBlocks[st.Block()] = true
+		}
+	})
+	// which successor does a test on a constant parameter take?
+	taken := func(b *ssa.BasicBlock) []*ssa.BasicBlock {
+		if len(b.Instrs) == 0 || len(b.Succs) != 2 {
+			return b.Succs
+		}
+		iff, ok := b.Instrs[len(b.Instrs)-1].(*ssa.If)
+		if !ok {
+			return b.Succs
+		}
+		bo, ok := iff.Cond.(*ssa.BinOp)
+		if !ok {
+			return b.Succs
+		}
+		prm, isP := stripNum(bo.X).(*ssa.Parameter)
+		k, isK := constInt(stripNum(bo.Y))
+		if !isP || !isK {
+			return b.Succs
+		}
+		v, known := consts[prm]
+		if !known {
+			return b.Succs
+		}
+		res := false
+		switch bo.Op {
+		case token.EQL:
+			res = v == k
+		case token.NEQ:
+			res = v != k
+		default:
+			return b.Succs
+		}
+		if res {
+			return b.Succs[:1]
+		}
+		return b.Succs[1:]
+	}
+	seen := map[*ssa.BasicBlock]bool{}
+	reached := false
+	var walk func(b *ssa.BasicBlock)
+	walk = func(b *ssa.BasicBlock) {
+		if seen[b] || reached || storeBlocks[b] {
+			return
+		}
+		seen[b] = true
+		if b == mk.Block() {
+			reached = true
+			return
+		}
+		for _, s2 := range taken(b) {
+			walk(s2)
+		}
+	}
+	walk(h.Blocks[0])
+	if reached {
+		return "in the set-up helper " + fname(h) + " initializeTree(cfg) can be reached, with this call's arguments, without cfg.massive having been set to false: it may select the pipeline tree, whose walkIterProgrammably returns a nil iterator, and iter.Pull2(nil) panics", true
+	}
+	return "", true
+}
 
 // singleStoreOf: v is a load of a variable cell that is assigned exactly once; return that store.
 func singleStoreOf(v ssa.Value) *ssa.Store {
